@@ -188,7 +188,25 @@ def roundtrip_harness(name):
 
 
 # ---- histories ----------------------------------------------------------------------------------------------------
+# one reusable definition from which several attributes are DERIVED by calling it with other metadata / another default
+Cnt = Int(0)
+
+
 class Node(HasTraits):
+    attempt = Cnt(transient=True)          # the transient derivative is made first
+    retries = Cnt(desc="how often")
+    priority = Cnt(3)
+    expr = __import__("traits.api", fromlist=["Expression"]).Expression("0")     # mapped: expr_ holds a code object
+    samples = List(Int, transient=True)    # a transient container with a declared observer ...
+    samples_seen = Int(transient=True)
+
+    @observe("samples.items")
+    def _samples_changed(self, event):
+        self.samples_seen += 1
+
+    def _value_changed(self):
+        self.samples                       # ... touched by a static handler of a persisted trait (also while a state is applied)
+
     pre_dirty = Int(0)     # persisted counter declared (hence restored) BEFORE the traits whose post_init handlers write it
     name = Str("n")
     value = Int(0)
@@ -247,7 +265,7 @@ class Node(HasTraits):
 COPIERS = ["pickle0", "pickle1", "pickle2", "pickle3", "pickle4", "pickle5", "deepcopy", "clone", "copy_traits_deep", "copy_traits_shallow",
            "setstate_quiet", "clone_deep"]
 BUILD_OPS = ["none", "value", "rename", "items", "kids", "table", "tags", "grid", "once", "scratch", "sel_alias", "kid_value",
-             "read_once", "group_alias", "bykey_alias", "mode"]
+             "read_once", "group_alias", "bykey_alias", "mode", "counters", "expr"]
 
 
 def do_copy(how, n):
@@ -309,6 +327,10 @@ def history_harness(k):
                 n.bykey[n.kids[-1]] = 5          # a node that is a KEY of a Dict trait and an item of a List trait
             elif op == "mode":
                 n.mode = "dash"
+            elif op == "counters":
+                n.attempt, n.retries, n.priority = 5, 6, 7
+            elif op == "expr":
+                n.expr = "1+2"
             elif op == "group_alias":
                 if not n.kids:
                     n.kids.append(Node(name="kidG"))
@@ -325,14 +347,15 @@ def history_harness(k):
         if c is None:
             return {"how": how}
         ex.check(type(c) is Node, "copy has the same class")
-        for t in ("name", "value", "items", "table", "tags", "grid", "pre_dirty", "a_dirty", "z_dirty"):
+        for t in ("name", "value", "items", "table", "tags", "grid", "pre_dirty", "a_dirty", "z_dirty", "retries", "priority", "expr"):
             if t.endswith("dirty") and how.startswith("copy_traits"):
                 continue      # copy_traits assigns onto a live object: its handlers legitimately run
             ex.check(getattr(c, t) == getattr(n, t), "non-transient trait values are equal (%s)" % t)
         ex.check([kk.name for kk in c.kids] == [kk.name for kk in n.kids] and [kk.value for kk in c.kids] == [kk.value for kk in n.kids],
                  "nested Instance graph is preserved")
         if how.startswith("pickle") or how == "deepcopy":
-            ex.check(c.tmp == 0, "transient traits are back at their defaults")
+            ex.check(c.tmp == 0 and c.attempt == 0, "transient traits are back at their defaults")
+        ex.check(eval(c.expr_) == eval(n.expr_), "a mapped trait's shadow attribute on the copy is the mapping of the copy's value (Expression)")
         if deep:
             for t in ("items", "table", "tags", "grid", "kids"):
                 ex.check(getattr(c, t) is not getattr(n, t), "no mutable container shared with the original (%s)" % t)
@@ -415,6 +438,9 @@ def history_harness(k):
         c.value = c.value + 5
         ex.check(c.doubled == d0 + 10, "cached property of the copy follows its dependency")
         ex.check(c.log and c.log[-1] == "value", "declared observers work on the copy")
+        seen0 = c.samples_seen
+        c.samples.append(1)
+        ex.check(c.samples_seen == seen0 + 1, "declared observers work on the copy's transient containers (whenever their default was created)")
         # a quiet restore (trait_change_notify=False) hooks nested on_trait_change listeners through the very
         # notifications it turns off; the property names unpickling, deep copying and cloning, so listener
         # liveness is not demanded of that entry point (values, shadows, validation and sharing are)
